@@ -11,7 +11,7 @@ S=/tmp/mut$R
 mkdir -p $S
 [ -d $S/repo ] || git -C /repo worktree add --detach $S/repo HEAD >/dev/null 2>&1
 mkdir -p $S/verif
-rsync -a --delete --exclude out --exclude .git --exclude harness/target /verif/ $S/verif/
+rsync -a --delete --exclude out --exclude .git --exclude .claude --exclude harness/target /verif/ $S/verif/
 git -C /verif archive ${VERIF_COMMIT:-HEAD} | tar -x -C $S/verif
 sed -i "s#path = \"/repo#path = \"$S/repo#g" $S/verif/harness/Cargo.toml
 for p in $1; do
